@@ -53,6 +53,7 @@ type readWriteSegment struct {
 	writingIdx        []byte
 
 	segmentSize uint32
+	closed      bool
 }
 
 func newReadWriteSegment(basePath string, baseOffset int64, segmentSize uint32, lastCrc uint32,
@@ -177,6 +178,11 @@ func (*readWriteSegment) OpenTimestamp() time.Time {
 func (ms *readWriteSegment) Close() error {
 	ms.Lock()
 	defer ms.Unlock()
+
+	if ms.closed {
+		return nil
+	}
+	ms.closed = true
 
 	err := multierr.Combine(
 		ms.txnMappedFile.Unmap(),
